@@ -48,6 +48,7 @@ theorem readFile_congr (sdA sdB : Side) (batA batB : List Nat) (e : Entry)
     and does not sit on track 20 reads back, after a successful `writeFile`, exactly as before. -/
 theorem writeFile_preserves (sd sd3 : Side) (bat : List Nat) (content : Bytes) (name ext : Str) (kind flag : Nat)
     (hw : C11.WFSide sd) (hb : getBat sd = .ok bat)
+    (h40 : isFree (bat.getD 40 0) = false) (h41 : isFree (bat.getD 41 0) = false)
     (hres : writeFile sd content name ext kind flag = .ok sd3) (e : Entry)
     (hdisj : ∀ b ∈ e.blocks, b ∉ chosen bat (reqBlocks content.length) ∧ b ≠ 40 ∧ b ≠ 41)
     (hlastst : ∀ last, e.blocks.getLast? = some last → bat.getD last 0 ≤ 200) :
@@ -56,6 +57,8 @@ theorem writeFile_preserves (sd sd3 : Side) (bat : List Nat) (content : Bytes) (
   have hblen := getBat_length sd bat hb
   unfold writeFile at hres
   rw [hb] at hres
+  dsimp only at hres
+  rw [protect_id bat h40 h41] at hres
   simp only [writeFileWith] at hres
   split at hres
   · cases hres
